@@ -273,6 +273,12 @@ def run(ctx):
             conditional_ok = c in ('promise', 'promise-none')
             rep.check(good and (e.must or conditional_ok), 'R-C04-1', key, '%s absorbs `%s` (whole, from the caller\'s data): %s' % (role, c, det),
                       '%s absorbs `%s` defectively (%s): %s' % (role, c, 'not on every path' if not (e.must or conditional_ok) else 'not the whole datum of the caller', det), ctx.where(e.body, e.bb))
+        # what is absorbed is the datum, not a copy that was overwritten between the datum and the absorption
+        spoiled = [(e, wire.overwritten(e.data())) for e in mine if e.kind != 'challenge' and e.data() is not None]
+        spoiled = [(e, o) for e, o in spoiled if o]
+        rep.check(not spoiled, 'R-C04-1', 'R-C04-1/%s/integrity' % role, 'every absorbed value reaches the transcript as it is taken from its datum (no in-place change in between)',
+                  'absorbed values changed in place before the absorption: %s' % [(e.label(), o) for e, o in spoiled][:4],
+                  ctx.where(spoiled[0][0].body, spoiled[0][0].bb) if spoiled else ctx.where(body))
         # the two promise alternatives are the only conditional absorptions
         cond = [e for i, e in enumerate(mine) if e.kind != 'challenge' and not e.must]
         pr_events = {id(x[1]) for c in ('promise', 'promise-none') for x in cls.get(c, [])}
